@@ -1,4 +1,4 @@
 SPECIFICATION TSpec
-CONSTANTS Cap = 2 Sizes = {1, 3} Plans = {"absent", "ok", "fail_after_read", "fail_no_read", "killed", "empty"} Tolerant = TRUE
+CONSTANTS Cap = 2 Sizes = {1, 3} Plans = {"absent", "ok", "fail_after_read", "fail_no_read", "killed", "empty", "garbage_no_read"} Tolerant = TRUE
 POSTCONDITION Accepted
 CHECK_DEADLOCK FALSE
